@@ -59,6 +59,18 @@ def check(case):
                 for k in keys:
                     if (a.check(k) or b.check(k)) and not u.check(k):
                         return f"union does not report {k!r} although an operand does"
+                # chained: an operand that is itself a union result.  The union of the filter fed only k with an
+                # empty filter stands for the stream [k]; united with c it must equal the filter fed c's stream and k
+                # (a result's elements_added is an estimate, 0 for very few bits: it is not a summary of its bits)
+                for k in keys[:12]:
+                    s1, e1, both3 = mk(), mk(), mk()
+                    s1.add(k), both3.add(k)
+                    for kk, _ in b_ops[::-1][: len(b_ops) // 2 + 1]:
+                        both3.add(kk)
+                    r1 = s1.union(e1)
+                    for w, what in ((c.union(r1) if r1 is not None else None, "c ∪ (s ∪ ∅)"), (r1.union(c) if r1 is not None else None, "(s ∪ ∅) ∪ c")):
+                        if w is None or bytes(w.bloom) != bytes(both3.bloom):
+                            return f"chained union {what} with s fed only {k!r} differs from the filter fed both streams (elements_added of the inner result: {r1.elements_added if r1 is not None else None})"
             finally:
                 if kind in ("bloom-ondisk", "bloom-ondisk2"):
                     b.close()
